@@ -24,6 +24,7 @@ import (
 	blocks "github.com/ipfs/go-block-format"
 	"github.com/ipfs/go-cid"
 	carv1root "github.com/ipld/go-car"
+	carlib "github.com/ipld/go-car/cmd/car/lib"
 	carv2 "github.com/ipld/go-car/v2"
 	"github.com/ipld/go-car/v2/blockstore"
 	"github.com/ipld/go-car/v2/index"
@@ -850,6 +851,46 @@ func runStatsCase(x *acCtx, c *acCase) {
 	}
 }
 
+// runStatsCli: the CLI's inspection (cmd/car/lib InspectCar, what `car inspect --full` runs; it always reads with
+// ZeroLengthSectionAsEOF) succeeds iff a verifying scan under that option does, and reports the same figures.
+func runStatsCli(x *acCtx, c *acCase) {
+	file := c.A.build()
+	path := filepath.Join(x.dir, "insp.car")
+	if err := os.WriteFile(path, file, 0o644); err != nil {
+		x.rep.inconclusive("cannot write " + path + ": " + err.Error())
+		return
+	}
+	defer os.Remove(path)
+	for _, full := range []bool{true, false} {
+		f, err := os.Open(path)
+		if err != nil {
+			x.rep.inconclusive(err.Error())
+			return
+		}
+		rep, ierr := carlib.InspectCar(f, full)
+		f.Close()
+		tag := fmt.Sprintf("lib.InspectCar(full=%v)", full)
+		x.rep.eval(canon(c.A)+tag, len(c.Scan) > 0)
+		verifies := c.Verif == nil || *c.Verif
+		wantOK := verifies || !full
+		if (ierr == nil) != wantOK {
+			x.viol("inspect/cli/iff-scan", c, fmt.Sprintf("%s: err=%v, a verifying scan with ZeroLengthSectionAsEOF %s", tag, ierr, map[bool]string{true: "succeeds", false: "fails"}[verifies]), map[string]any{"mode": "stats"})
+			continue
+		}
+		if ierr != nil {
+			continue
+		}
+		w := c.Stats
+		if rep.Version != w.Version || rep.BlockCount != w.Count || len(rep.Roots) != len(w.Roots) || rep.RootsPresent != w.RootsPresent ||
+			rep.BlkLength.Min != w.MinBlk || rep.BlkLength.Max != w.MaxBlk || rep.BlkLength.Mean != w.AvgBlk ||
+			rep.CidLength.Min != w.MinCid || rep.CidLength.Max != w.MaxCid || rep.CidLength.Mean != w.AvgCid {
+			x.viol("inspect/cli/stats", c, fmt.Sprintf("%s reports version %d, %d blocks, %d roots (present %v), block lengths %v, CID lengths %v; specification says %d, %d, %d (%v), %d/%d/%d, %d/%d/%d",
+				tag, rep.Version, rep.BlockCount, len(rep.Roots), rep.RootsPresent, rep.BlkLength, rep.CidLength,
+				w.Version, w.Count, len(w.Roots), w.RootsPresent, w.MinBlk, w.AvgBlk, w.MaxBlk, w.MinCid, w.AvgCid, w.MaxCid), map[string]any{"mode": "stats"})
+		}
+	}
+}
+
 // runStatsLimits: "x size limits" -- under any MaxAllowedSectionSize / MaxAllowedHeaderSize, full inspection
 // succeeds iff the verifying scan under the same options does; the limits sit on and next to the largest
 // section body and the header body of the archive.
@@ -1298,6 +1339,7 @@ func runArchiveReplay(args []string) int {
 						runRoCase(x, &c)
 					case "stats":
 						runStatsCase(x, &c)
+						runStatsCli(x, &c)
 						if c.Verif != nil && !*c.Verif {
 							break // the damage / limit variations below start from an archive that verifies
 						}
